@@ -27,7 +27,8 @@ dictionaries, the graphs / node predicate / cache handed to the matcher and the 
 `getref`, `mkref`, `pipeline` compare the model with those records exactly, `mcismem` checks every recorded answer of
 the real matcher against the Lean reference.  Families ref-* (degenerate references, atoms without element / name,
 refused requests, synthetic modifications) and peptide-* (whole peptides through AnnotateMutMod + RepairGraph listed
-in several atom orders: the result must not depend on the order).
+in several atom orders: the result must not depend on the order; some carry per-residue requests written as text
+(-mutate A-SER0:ALA) on residues numbered 0 / negative with a namesake in the chain: only the named residue changes).
 """
 import copy
 import itertools
@@ -1634,15 +1635,51 @@ def peptide_specs(rng):
             specs.append(dict(ff=ffname, seq=[rng.choice(pool) for _ in range(n)], resid0=rng.choice([1, 1, 7, 120]),
                               missing_h=rng.choice([0, 0, 1, 2]), seed=rng.randrange(10 ** 9),
                               scramble=all(len(good[b]) <= 12 for b in pool[:0]) or t == 0))
+    # peptides with explicit per-residue requests written as TEXT the way the command line receives them
+    # (-mutate A-SER0:ALA, -modify A-SER0:N-ter) and parsed by the real parse_residue_spec; the residues are numbered
+    # so that 0 and negative numbers occur, and a second residue carries the same name as the requested one, so that
+    # a specification that loses its number (or chain) would hit more than the residue it names
+    rrng = chk.rng('peptide-requests')
+    for ffname in ('charmm', 'amber'):
+        ff, good = FFS[ffname]
+        if 'N-ter' not in ff.modifications or 'C-ter' not in ff.modifications:
+            continue
+        pool = [b for b in ('GLY', 'ALA', 'SER', 'VAL', 'THR', 'ASP', 'CYS', 'LEU')
+                if b in good and len(good[b]) <= 20
+                and expected_patch(good[b], [ff.modifications['N-ter']]) is not None
+                and expected_patch(good[b], [ff.modifications['C-ter']]) is not None]
+        targets = [b for b in ('ALA', 'GLY', 'SER', 'VAL', 'THR', 'CYS') if b in pool]
+        for t in range(6 if chk.thorough else 2):
+            n = rrng.randint(3, 4)
+            resid0 = rrng.choice([0, 0, -1, -2, -(n - 1)])
+            seq = [rrng.choice(pool) for _ in range(n)]
+            zero = -resid0
+            ti = zero if (t == 0 or rrng.random() < 0.6) else rrng.randrange(n)
+            tj = rrng.choice([j for j in range(n) if j != ti])
+            seq[tj] = seq[ti]
+            resid = resid0 + ti
+            forms = ['A-%s#%d'] if resid < 0 else ['A-%s%d', 'A-%s%d', 'A-%s#%d', '%s%d']
+            where = rrng.choice(forms) % (seq[ti], resid)
+            modify, mutate, out_seq = ['nter:N-ter', 'cter:C-ter'], [], list(seq)
+            if ti in (0, n - 1) and rrng.random() < 0.4:
+                modify[0 if ti == 0 else 1] = '%s:%s' % (where, 'N-ter' if ti == 0 else 'C-ter')
+            else:
+                new = rrng.choice([b for b in targets if b != seq[ti]])
+                mutate.append('%s:%s' % (where, new))
+                out_seq[ti] = new
+            specs.append(dict(ff=ffname, seq=seq, resid0=resid0, missing_h=rrng.choice([0, 0, 1, 2]),
+                              seed=rrng.randrange(10 ** 9), scramble=t == 0, modify=modify, mutate=mutate,
+                              out_seq=out_seq, named=resid))
     return specs
 
 
-def build_peptide(spec):
+def build_peptide(spec, seq=None):
     """-> atoms [(resid, name, element, resname, added by a terminal modification)], bonds [((resid, name), (resid, name))]"""
     ff, good = FFS[spec['ff']]
     atoms, bonds = [], []
-    last = len(spec['seq']) - 1
-    for i, resname in enumerate(spec['seq']):
+    seq = spec['seq'] if seq is None else seq
+    last = len(seq) - 1
+    for i, resname in enumerate(seq):
         resid = spec['resid0'] + i
         mods = ([ff.modifications['N-ter']] if i == 0 else []) + ([ff.modifications['C-ter']] if i == last else [])
         g = expected_patch(good[resname], mods) if mods else expected_patch(good[resname], [])
@@ -1709,9 +1746,20 @@ for pi, spec in enumerate(peptide_specs(chk.rng('peptides'))):
     atoms, bonds = build_peptide(spec)
     hs = [a for a in atoms if a[2] == 'H']
     removed = set((a[0], a[1]) for a in prng.sample(hs, min(spec['missing_h'], len(hs))))
-    want_atoms = sorted((a[0], a[1], a[2]) for a in atoms)
-    want_bonds = sorted(tuple(sorted(b, key=str)) for b in bonds)
-    want_marked = sorted((a[0], a[1]) for a in atoms if a[4])
+    # what the repair must deliver: the peptide in which the residues NAMED by a mutation request are the requested
+    # block, and every other residue is its OWN block (with the terminal modification where one was requested)
+    w_atoms, w_bonds = build_peptide(spec, spec['out_seq']) if 'out_seq' in spec else (atoms, bonds)
+    want_atoms = sorted((a[0], a[1], a[2]) for a in w_atoms)
+    want_bonds = sorted(tuple(sorted(b, key=str)) for b in w_bonds)
+    want_marked = sorted((a[0], a[1]) for a in w_atoms if a[4])
+    want_resnames = {a[0]: a[3] for a in w_atoms}
+    requests = dict(modifications=[tuple(x.split(':')) for x in spec.get('modify', ['nter:N-ter', 'cter:C-ter'])],
+                    mutations=[tuple(x.split(':')) for x in spec.get('mutate', [])])
+    want_annot = {}
+    for i in range(len(spec['seq'])):
+        r = spec['resid0'] + i
+        want_annot[r] = ([spec['out_seq'][i]] if 'out_seq' in spec and spec['out_seq'][i] != spec['seq'][i] else None,
+                         ['N-ter'] if i == 0 else ['C-ter'] if i == len(spec['seq']) - 1 else None)
     lo, hi = min(a[0] for a in atoms), max(a[0] for a in atoms)
     runs = []
     for label, order, keymode, rename in peptide_listings(spec, atoms, prng):
@@ -1720,15 +1768,26 @@ for pi, spec in enumerate(peptide_specs(chk.rng('peptides'))):
         sysm = System(force_field=mol.force_field)
         sysm.molecules = [mol]
         quiet_vermouth_logs()
-        AnnotateMutMod(modifications=[('nter', 'N-ter'), ('cter', 'C-ter')]).run_system(sysm)
+        AnnotateMutMod(**requests).run_system(sysm)
         mol = sysm.molecules[0]
+        got_annot = {}
+        for k in mol.nodes:
+            d = mol.nodes[k]
+            got_annot.setdefault(d['resid'], set()).add((repr(d.get('mutation')), repr(d.get('modification'))))
+        annot_errs = ['residue %d: the requests %s ask for mutation %s / modification %s, its atoms carry %s'
+                      % (r, requests, want_annot[r][0], want_annot[r][1], sorted(got_annot[r]))
+                      for r in sorted(got_annot) if got_annot[r] != {(repr(want_annot[r][0]), repr(want_annot[r][1]))}]
+        if 'named' in spec:
+            chk.count('peptide_request_' + ('mutate' if spec['mutate'] else 'modify'))
+            chk.count('peptide_request_resid_' + ('zero' if spec['named'] == 0 else 'negative' if spec['named'] < 0 else 'positive'))
         mol_in = mol.copy()
         pre = prepare_inputs(mol_in)
         res = run_real(mol, False)
         chk.count('peptide_listing_%s' % label.split('-')[0])
         chk.count('peptide_status_' + res['status'].split(':')[0])
+        res['annot_errs'] = annot_errs
         runs.append((label, mol_in, pre, res))
-    pep_pending.append((pi, spec, runs, want_atoms, want_bonds, want_marked, lo, hi))
+    pep_pending.append((pi, spec, runs, want_atoms, want_bonds, (want_marked, want_resnames), lo, hi))
 
 pep_lines = []
 for pi, spec, runs, *_ in pep_pending:
@@ -1742,7 +1801,7 @@ for pi, spec, runs, *_ in pep_pending:
         res['ref_lines'] = ref_lines(mol_in, pre, res)
         pep_lines += [x[1] for x in res['ref_lines']]
 pep_ans = iter(chk.drv.ask(pep_lines) if chk.lean_ok and pep_lines else [None] * len(pep_lines))
-for pi, spec, runs, want_atoms, want_bonds, want_marked, lo, hi in pep_pending:
+for pi, spec, runs, want_atoms, want_bonds, (want_marked, want_resnames), lo, hi in pep_pending:
     first = None
     sp_json = json.dumps(spec, sort_keys=True)
     for label, mol_in, pre, res in runs:
@@ -1767,11 +1826,19 @@ for pi, spec, runs, want_atoms, want_bonds, want_marked, lo, hi in pep_pending:
                 chk.notes.append('%s:%s: %s' % (cid, kind, explain_ref(rimpl, rmodel)))
         got = canon_peptide(res['out'])
         tag = 'peptide %s (resids %d..%d) listed %s: ' % ('-'.join(spec['seq']), lo, hi, label)
+        errs += [tag + e for e in res['annot_errs']]
         if got[0] != want_atoms:
             errs.append(tag + 'atoms after the repair differ from the complete patched peptide: unexpected %s, absent %s'
                         % (sorted(set(got[0]) - set(want_atoms))[:6], sorted(set(want_atoms) - set(got[0]))[:6]))
         if got[1] != want_bonds:
             errs.append(tag + 'bonds differ from the patched peptide: %s' % sorted(set(got[1]) ^ set(want_bonds), key=str)[:6])
+        out = res['out']
+        for r in sorted(want_resnames):
+            names = sorted({str(out.nodes[n].get('resname')) for n in out.nodes if out.nodes[n].get('resid') == r})
+            if names != [want_resnames[r]]:
+                errs.append(tag + 'residue %d comes back named %s, expected %s (%s)'
+                            % (r, names, want_resnames[r], 'the residue named by the request' if r == spec.get('named')
+                               and spec.get('mutate') else 'no request names this residue: it must stay its own block'))
         if got[2] != want_marked:
             errs.append(tag + 'atoms marked PTM_atom %s, the terminal modifications add %s' % (got[2], want_marked))
         nter = [a for a in got[2] if a[0] != lo and a[1] in ('HN2', 'HN3')]
